@@ -17,6 +17,7 @@ type c15Construct struct {
 	isBlock    bool   // {% ... %} ... {% end %} (two tags) vs {{ ... }}
 	open, body string // for blocks: opening tag content, inner text; for variables: expression
 	end        string
+	tight      bool    // no blank between a delimiter and the content: {{-1}}, {%-if a-%}
 	dash       [4]bool // variable: [0]={{- [1]=-}} ; block: [0]={%- open [1]=-%} open [2]={%- end [3]=-%} end
 }
 
@@ -45,11 +46,15 @@ func (c *c15Construct) marked(inner string) string {
 		}
 		return "-" + s
 	}
-	if !c.isBlock {
-		return d(c.dash[0], "{{", true) + " " + c.open + " " + d(c.dash[1], "}}", false)
+	sp := " "
+	if c.tight {
+		sp = "" // nothing between the delimiter (with its marker) and the content
 	}
-	return d(c.dash[0], "{%", true) + " " + c.open + " " + d(c.dash[1], "%}", false) + inner +
-		d(c.dash[2], "{%", true) + " " + c.end + " " + d(c.dash[3], "%}", false)
+	if !c.isBlock {
+		return d(c.dash[0], "{{", true) + sp + c.open + sp + d(c.dash[1], "}}", false)
+	}
+	return d(c.dash[0], "{%", true) + sp + c.open + sp + d(c.dash[1], "%}", false) + inner +
+		d(c.dash[2], "{%", true) + sp + c.end + sp + d(c.dash[3], "%}", false)
 }
 func (c *c15Construct) plain(inner string) string {
 	if !c.isBlock {
@@ -76,7 +81,7 @@ func runC15(r *run) {
 				c := &c15Construct{}
 				switch g.intn(4) {
 				case 0:
-					c.open = g.pick([]string{"s", "a", "\"lit\"", "s|lower"})
+					c.open = g.pick([]string{"s", "a", "\"lit\"", "s|lower", "1", "12", "0", "a + 1", "2.5"})
 				case 1:
 					c.isBlock, c.open, c.end = true, "if a", "endif"
 				case 2:
@@ -84,6 +89,7 @@ func runC15(r *run) {
 				default:
 					c.isBlock, c.open, c.end = true, "with z=1", "endwith"
 				}
+				c.tight = g.chance(1, 3)
 				cons = append(cons, c)
 				inners = append(inners, c15Text(g))
 				texts = append(texts, c15Text(g))
@@ -141,6 +147,25 @@ func runC15(r *run) {
 		for i := 0; i < 64; i++ {
 			emit(caseT{"tplopts", []string{fmt.Sprint(i)}})
 		}
+		// the block options of the SET apply to every file of the set, however it is reached:
+		// directly, by include (literal or computed name), by ssi parsed, as a parent
+		for i := 0; i < 48; i++ {
+			emit(caseT{"routes", []string{fmt.Sprint(i)}})
+		}
+		// the same against the model: a base with block tags on lines of their own, a child, the
+		// set's options in all four settings
+		for opt := 0; opt < 4; opt++ {
+			for bi, base := range []string{"<ul>\n  {% for q in lst %}\n  <li>{{ q }}</li>\n    \t{% endfor %}\n</ul>\n", "  {% if a %}\nP\n\t{% endif %}\nQ\n{% block b %}\n base \n  {% endblock %}\n!",
+				"\n{% block b %}{% endblock %}\n\n  {% if a %} x {% endif %}  \n"} {
+				for ci, child := range []string{"{% extends \"base.tpl\" %}", "{% extends \"base.tpl\" %}\n{% block b %}\n  child\n  {% if a %}\n y\n  {% endif %}\n{% endblock %}\n"} {
+					w := &world{trim: opt&1 != 0, lstrip: opt&2 != 0, files: []map[string]string{{"base.tpl": base, "inc.tpl": "{% include \"base.tpl\" %}"}}}
+					emit(caseT{"render", append(w.args(child, ctx), "-", "-", "norefcheck")})
+					if bi+ci == 0 {
+						emit(caseT{"render", append(w.args("{% include \"inc.tpl\" %}{% ssi \"base.tpl\" parsed %}", ctx), "-", "-", "norefcheck")})
+					}
+				}
+			}
+		}
 		// spaceless reached again while its body is being rendered (a macro that calls itself)
 		for i := 0; i < 40; i++ {
 			g := rg.fork(uint64(2000000 + i))
@@ -155,6 +180,56 @@ func runC15(r *run) {
 		}
 	}, execC15)
 	r.finish(nil)
+}
+
+func execRoutes(r *run, c caseT) {
+	var i int
+	fmt.Sscanf(c.args[0], "%d", &i)
+	trim, lstrip := i&1 != 0, i&2 != 0
+	part := []string{"<ul>\n  {% for q in lst %}\n  <li>{{ q }}</li>\n    \t{% endfor %}\n</ul>\n", "  {% if a %}\nP\n\t{% endif %}\nQ\n", "\n{% with z=1 %}\n\n{{ z }}{% endwith %}\n \n", "{% if a %}{% endif %}\n\n  {% if a %} x {% endif %}  \n"}[(i>>2)&3]
+	route := (i >> 4) % 3
+	files := map[string]string{"part.tpl": part, "inc.tpl": "{% include \"part.tpl\" %}", "lazy.tpl": "{% include nm %}", "ssi.tpl": "{% ssi \"part.tpl\" parsed %}",
+		"child.tpl": "{% extends \"part.tpl\" %}"}
+	ctx := func() pongo2.Context { return pongo2.Context{"a": 1, "lst": []int{1, 2}, "nm": "part.tpl"} }
+	mk := func() *pongo2.TemplateSet {
+		set := pongo2.NewSet("routes", newMemLoader(files))
+		set.Options.TrimBlocks, set.Options.LStripBlocks = trim, lstrip
+		return set
+	}
+	render := func(name string) string {
+		set := mk()
+		var out string
+		var err error
+		switch route {
+		case 0:
+			out, err = set.RenderTemplateFile(name, ctx())
+		case 1:
+			var tpl *pongo2.Template
+			if tpl, err = set.FromCache(name); err == nil {
+				out, err = tpl.Execute(ctx())
+			}
+		default:
+			var tpl *pongo2.Template
+			if tpl, err = set.FromFile(name); err == nil {
+				_, _ = tpl.Execute(ctx())
+				out, err = tpl.Execute(ctx())
+			}
+		}
+		if err != nil {
+			return "err:" + err.Error()
+		}
+		return out
+	}
+	want := render("part.tpl")
+	id := r.emit(c.op, c.args, "routes")
+	r.nontrivial("routes" + c.args[0])
+	for _, name := range []string{"inc.tpl", "lazy.tpl", "ssi.tpl", "child.tpl"} {
+		if got := render(name); got != want {
+			r.reject(id, "a file renders differently under the set's block options when it is reached through another template", map[string]any{"file": part, "through": files[name],
+				"trim_blocks": trim, "lstrip_blocks": lstrip, "direct": want, "observed": got})
+			return
+		}
+	}
 }
 
 func execTplOpts(r *run, c caseT) {
@@ -316,6 +391,10 @@ func spacelessRef(s string) string {
 func execC15(r *run, c caseT) {
 	if c.op == "tplopts" {
 		execTplOpts(r, c)
+		return
+	}
+	if c.op == "routes" {
+		execRoutes(r, c)
 		return
 	}
 	w, src, ctx := worldFromArgs(c.args)
